@@ -16,10 +16,18 @@ def done(img, res="ok"):
     return {"op": "done", "image": img, "result": res}
 
 
+def overlap(c, img, res="ok"):
+    """Done(img, res) whose broadcast is stalled while caller c calls Pull(img)."""
+    return {"op": "overlap", "caller": c, "image": img, "result": res}
+
+
 def well_formed(steps):
     """Done only while a pull of the image is running; a caller blocked in Pull cannot call again."""
     waiting, blocked = {}, set()
+    flat = []
     for s in steps:
+        flat += [done(s["image"], s["result"]), req(s["caller"], s["image"])] if s["op"] == "overlap" else [s]
+    for s in flat:
         if s["op"] == "req":
             if s["caller"] in blocked:
                 return False
@@ -47,7 +55,38 @@ CORPUS = [
     [req(0, "a"), req(1, "a"), req(2, "b"), done("a"), req(0, "a"), done("b", "err"), req(2, "a"), done("a")],  # props/C20.v example
     [req(i, "a") for i in range(8)] + [done("a")] + [req(i, "a") for i in range(8)],
     [req(0, "a"), req(1, "b"), req(2, "c"), done("c"), done("a", "err"), req(2, "b"), req(0, "c")],
+    # overlapping steps: a Pull arriving while handleResponse is in the middle of its broadcast
+    [req(0, "a"), overlap(1, "a")],
+    [req(0, "a"), req(1, "a"), overlap(2, "a", "err"), req(0, "a"), done("a")],
+    [req(0, "a"), req(1, "b"), overlap(2, "a"), overlap(3, "b", "err"), overlap(0, "a"), done("b")],
+    [req(0, "a"), overlap(1, "a"), overlap(0, "a"), overlap(1, "a", "err"), done("a")],
 ]
+
+
+def overlap_variants(schedules):
+    """For every Done of every schedule: the same schedule with that Done overlapped by a Pull of the
+    same image from a caller that appears nowhere else (so the rest of the schedule stays well-formed)."""
+    out = []
+    for seq in schedules:
+        for k, s in enumerate(seq):
+            if s["op"] == "done":
+                out.append(seq[:k] + [overlap(9, s["image"], s["result"])] + seq[k + 1:])
+    return out
+
+
+def sprinkle_overlaps(r, schedules, p):
+    """Random schedules: every Done becomes an overlap with probability p (fresh caller id each)."""
+    out = []
+    for seq in schedules:
+        new, fresh = [], 100
+        for s in seq:
+            if s["op"] == "done" and r.random() < p:
+                new.append(overlap(fresh, s["image"], s["result"]))
+                fresh += 1
+            else:
+                new.append(s)
+        out.append(new)
+    return out
 
 
 def exhaustive(maxlen, callers=3, images="ab"):
@@ -110,8 +149,10 @@ def img_no(img):
 
 def step_term(s):
     if s["op"] == "req":
-        return "Req %d %d" % (s["caller"], img_no(s["image"]))
-    return "Done %d %s" % (img_no(s["image"]), cB(s.get("result") != "err"))
+        return "Plain (Req %d %d)" % (s["caller"], img_no(s["image"]))
+    if s["op"] == "overlap":
+        return "Overlap %d %s %d" % (img_no(s["image"]), cB(s.get("result") != "err"), s["caller"])
+    return "Plain (Done %d %s)" % (img_no(s["image"]), cB(s.get("result") != "err"))
 
 
 def malformed_events(obs):
@@ -144,8 +185,8 @@ def classify(sc, obs):
     """(class key, non-trivial?) - callers erased; non-trivial = some request joined a running pull
     or some image was pulled again after a broadcast."""
     steps = sc["steps"]
-    key = tuple((s["op"], s["image"], s.get("result", "")) for s in steps)
-    joined = any(n >= 2 for n in obs["counts"])
+    key = tuple((s["op"], s["image"], s.get("result", "")) for s in steps) + tuple(obs.get("overlap", []))
+    joined = any(n >= 2 for n in obs["counts"]) or any(s["op"] == "overlap" for s in steps)
     pulls = {}
     for evs in obs["events"]:
         for e in evs:
@@ -180,17 +221,21 @@ def evaluate(run, scs, outs, tag, samples):
             continue
         sc, obs = scs[i], outs[i]["obs"]
         key, nontrivial = classify(sc, obs)
+        for w in obs.get("overlap", []):   # what the overlapping Pull was seen doing while the broadcast was stalled
+            h = run.cov.setdefault("overlap_states", {})
+            h[w] = h.get(w, 0) + 1
         if nontrivial:
             run.classes.add(key)
         agree, mon = r
         if not mon:
-            what = "shares memory between returned packages" if obs["alias"] else \
+            what = "returned copies share memory" if obs["alias"] else \
                    "loses, duplicates or misroutes a response, or runs two pulls of one image, or fails to start a fresh pull"
             run.violation("C20 RequestManager " + what, {"scenario": sc, "impl": obs}, True)
             concrete += 1
         elif not agree or obs["flags"]:
             run.violation("corr:C20/reqmgr model and implementation differ",
-                          {"correspondence": "C20Corr.agree / linearisation flags", "scenario": sc, "impl": obs}, False)
+                          {"correspondence": "C20Corr.lin_agree (not linearizable against the sequential model) / harness flags",
+                           "scenario": sc, "impl": obs}, False)
     if len(samples) < 3:
         samples += [{"scenario": scs[i], "impl": outs[i].get("obs")} for i in idx if len(scs[i]["steps"]) >= 4][:3 - len(samples)]
     return concrete
@@ -256,13 +301,18 @@ def race_stage(run, scs):
 
 def check(run, tier, seed, replay=None):
     run.assumptions += [
-        "each critical section under inFlightLock is atomic (sync.Mutex) and the sends in handleResponse never block "
-        "(receiver channels have capacity 1 and get one send): the model's steps are the two critical sections",
+        "the model's steps are the two lock scopes of request_manager.go taken as atomic; atomicity of handleResponse "
+        "against a concurrent Pull of the same image is TESTED (overlap steps: broadcast stalled on an extra unbuffered "
+        "receiver, Pull issued meanwhile, joint observation must be linearizable against the model), not proved; "
+        "overlaps inside handleRequest are not forced",
         "handleResponse(img) is only called by the goroutine started by handleRequest(img) (schedules are well-formed); "
         "the scripted pull function does not panic",
         "linearisation: a step is over when the accessor (under inFlightLock) shows the registration / deletion and every "
         "goroutine of the scenario is parked in a channel receive (runtime.Stack)",
-        "memory-level privacy of copies is tested (mutation of every returned Files map, -race in thorough), not proved",
+        "memory-level privacy of copies is tested, not proved: the scripted package has files with spare capacity, "
+        "zero-length files with spare capacity and a nil file; every returned Files map gets in-place writes, in-place "
+        "appends, key insertion and deletion; all copies and the original are compared by content, by spare capacity "
+        "and by backing-array address (-race in thorough)",
     ]
     run.cov["evaluations"] = 0
     vlib.std_proof_stage(run, "C20")
@@ -276,10 +326,13 @@ def check(run, tier, seed, replay=None):
     run.cov["rule"] = (
         "stages: fixed corpus; ALL well-formed schedules (Done only while a pull of the image runs, a blocked caller does not "
         "call again) up to length %d over 3 callers x 2 images x ok/err, each drained by the harness at the end; seeded random "
-        "well-formed schedules up to length %d over <=6 callers x <=3 images%s. Stops after the first stage with a concrete "
-        "violation. non-trivial = a request joined a running pull or an image was pulled again after a broadcast; distinct = "
-        "(op, image, result) sequence with caller ids erased"
-        % ((5, 20, "") if tier == "quick" else (7, 60, "; a sample re-run under go build -race with unsynchronised caller mutation")))
+        "well-formed schedules up to length %d over <=6 callers x <=3 images; overlap variants: for EVERY Done of every "
+        "exhaustive schedule up to length %d the schedule with that Done overlapped by a Pull of the same image (issued while "
+        "the broadcast is stalled), plus random schedules with a third of the Dones overlapped%s. Stops after the first "
+        "stage with a concrete violation. non-trivial = a request joined a running pull, an image was pulled again after a "
+        "broadcast, or a step overlapped; distinct = (op, image, result) sequence with caller ids erased + what the "
+        "overlapping Pull was seen doing"
+        % ((5, 20, 5, "") if tier == "quick" else (7, 60, 6, "; a sample re-run under go build -race with unsynchronised caller mutation")))
 
     if replay:
         sc = json.load(open(replay))["replay"]["scenario"]
@@ -296,6 +349,10 @@ def check(run, tier, seed, replay=None):
     stages.append(("exh", [{"steps": s} for s in exhaustive(5 if tier == "quick" else 7)]))
     stages.append(("rnd", [{"steps": s} for s in random_schedules(r, 150 if tier == "quick" else 2500,
                                                                     20 if tier == "quick" else 60)]))
+    ov = overlap_variants(exhaustive(5 if tier == "quick" else 6))
+    ov += sprinkle_overlaps(r, random_schedules(r, 100 if tier == "quick" else 1500, 20 if tier == "quick" else 60), 0.34)
+    assert all(well_formed(s) for s in ov[:2000])
+    stages.append(("overlap", [{"steps": s} for s in ov]))
     for tag, scs in stages:
         outs = vlib.run_harness("reqmgr", scs, par=8)
         if evaluate(run, scs, outs, tag, samples):
@@ -304,7 +361,8 @@ def check(run, tier, seed, replay=None):
     run.cov["exhaustive"] = False   # exhaustive only up to the stated length; longer schedules are sampled
     if tier == "thorough":
         rs = [{"steps": s} for s in CORPUS] + [{"steps": s} for s in exhaustive(4)] + \
-             [{"steps": s} for s in random_schedules(r, 300, 40)]
+             [{"steps": s} for s in random_schedules(r, 300, 40)] + \
+             [{"steps": s} for s in overlap_variants(exhaustive(4))]
         outs, concrete = race_stage(run, rs)
         if outs and not concrete:
             evaluate(run, [dict(sc, unsync=True) for sc in rs], outs, "race", samples)
